@@ -16,7 +16,9 @@ TInit == /\ tid \in 1..Len(Traces) /\ l = 1
 \* the spec action's predicted observable must equal what was logged
 Matches == /\ last'.e = E.e /\ last'.res = E.res /\ last'.dl = E.dl
 
-Step(A) == /\ l <= Len(T.ev) /\ A /\ Matches /\ l' = l + 1 /\ UNCHANGED tid
+\* Inv' : the design invariants are evaluated at every step of every real execution;
+\* a step that breaks one is not taken, so the trace is rejected there.
+Step(A) == /\ l <= Len(T.ev) /\ A /\ Matches /\ Inv' /\ l' = l + 1 /\ UNCHANGED tid
 
 TNext == \/ (E.e = "put" /\ Step(PutDeliver \/ PutQueue \/ PutOverflow))
          \/ (E.e = "get" /\ Step(GetNow \/ GetWait \/ GetUnderflow))
